@@ -133,6 +133,11 @@ func NewConfig(gapLimit uint32) *config.Config {
 
 // OpenWallet creates or opens the wallet database in dir and builds the manager (not started).
 func OpenWallet(node *Node, dir string, cfg *config.Config) (*Wallet, error) {
+	return OpenWalletPub(node, dir, cfg, PubPass)
+}
+
+// OpenWalletPub: as OpenWallet with an explicit public passphrase.
+func OpenWalletPub(node *Node, dir string, cfg *config.Config, pubPass string) (*Wallet, error) {
 	var inner mwdb.DB
 	var err error
 	if _, serr := os.Stat(filepath.Join(dir, "CURRENT")); serr == nil {
@@ -145,7 +150,7 @@ func OpenWallet(node *Node, dir string, cfg *config.Config) (*Wallet, error) {
 		return nil, fmt.Errorf("open wallet db: %v", err)
 	}
 	w := &Wallet{Node: node, Dir: dir, DB: WrapDB(inner), Cfg: cfg, Points: &Points{}}
-	w.W, err = masswallet.NewWalletManager(node, w.DB, cfg, config.ChainParams, PubPass)
+	w.W, err = masswallet.NewWalletManager(node, w.DB, cfg, config.ChainParams, pubPass)
 	if err != nil {
 		inner.Close()
 		return nil, fmt.Errorf("NewWalletManager: %v", err)
